@@ -6,7 +6,8 @@ LEVEL = 'exploration'
 SHARDS = {'quick': 2, 'thorough': 16}
 BUDGET = {'quick': 60, 'thorough': 600}
 TECHNIQUE = 'runtime monitoring at the client boundary: every permutation of modifier steps compared on signatures and call behaviour; recorded histories of retrieve/bind/call/drop checked for answer stability, right self, and reclamation through weak references after gc.collect()'
-RULE = ('(a) seeded step sets {posoargs, kwoargs (split or joint), autokwoargs, annotate} on functions of U({a,b,c},3): every '
+RULE = ('(also: an object kind whose instances compare and hash equal; targeted histories with two instances alive, each bound and called after the other) '
+        '(a) seeded step sets {posoargs, kwoargs (split or joint), autokwoargs, annotate} on functions of U({a,b,c},3): every '
         'permutation is applied, admissible orders must agree on sigtools.signature, inspect.signature and behaviour on all '
         'call shapes and match the native reference, and every order admissible on the function is applied to a method and looked up through an instance (same signature, same acceptance); (b) histories over {retrieve, inspect-retrieve, bind+keep, call, drop '
         'instance + gc.collect(), class access, subclass instance, fresh instance, re-annotate, a retrieval that fails through an injected fault} on 9 kinds of objects '
